@@ -677,7 +677,7 @@ func c15RunAndJudge(run *ev.Run, cs *c15Case, dir, mode string) bool {
 	watchdog := time.After(3 * time.Minute)
 	tick := time.NewTicker(150 * time.Millisecond)
 	defer tick.Stop()
-	lastProgress, still := int64(-1), 0
+	lastProgress, still, spins := int64(-1), 0, 0
 wait:
 	for {
 		select {
@@ -689,7 +689,7 @@ wait:
 		case <-tick.C:
 			p := c15Progress.Load()
 			if p != lastProgress {
-				lastProgress, still = p, 0
+				lastProgress, still, spins = p, 0, 0
 				continue
 			}
 			callers, parked, inTargeter, where := 0, 0, 0, ""
@@ -718,6 +718,28 @@ wait:
 						}
 					}
 				}
+			}
+			// the other way of never returning: callers that keep running inside the targeter without a
+			// single draw returning for 20 ticks (3 s; a draw takes well under a microsecond)
+			if callers > 0 && parked < callers && c15Progress.Load() == p {
+				spinningIn := 0
+				for _, g := range gs {
+					if strings.Contains(g.Frames, "main.c15Run.func") && !parkedState(g.State) && strings.Contains(g.Frames, "main.c15Draw") && isVegetaG(g) {
+						spinningIn++
+					}
+				}
+				if spinningIn > 0 && spinningIn+parked == callers {
+					if spins++; spins >= 20 {
+						run.Eval(1)
+						run.Violate("C15/draw-never-returns/"+cs.Kind, fmt.Sprintf("%s targeter: for 3 s no draw has returned although %d of the %d remaining callers keep running inside the targeter (the others wait for them)", cs.Kind, spinningIn, callers),
+							c15Witness{Case: *cs, Mode: mode, Clause: "spinning", Summary: c12Trunc(describeGs(gs))})
+						return false
+					}
+				} else {
+					spins = 0
+				}
+			} else {
+				spins = 0
 			}
 			if callers == 0 || parked < callers || inTargeter == 0 || c15Progress.Load() != p {
 				still = 0
